@@ -9,6 +9,8 @@ ASSUMPTIONS = [
     "real clusters: DatacakeNode + EventuallyConsistentStoreExtension over a fault-injecting MemStore on 127.0.0.1 (real chitchat membership, selector, "
     "RPC, distributor, poller), one cluster per layout, issuer = node 1 of data centre 1; for every level x kind (put, put_many, del, del_many) x subset of "
     "other nodes whose storage refuses writes, one call through the public handle, then every node's storage is read at once",
+    "a few calls per cluster are made while one replica's storage answers late (2.6 s quick / 6.5 s thorough, longer than the 2 s the error type "
+    "advertises): the call may wait or report a failure, but 'ok' still means the promised number of replicas hold the mutation",
     "only facts that do not depend on timing are judged; 'still replicated later' is polled for up to 30 s",
     "lost replies are explored in the model only (they cannot be injected through the public API)",
     "Required(level) is Selector.tla's (the same definition C15 uses)",
@@ -25,7 +27,9 @@ def run(ctx):
         raise vlib.ToolError("Consistency.tla violates %s: specification error" % mc["violated"])
     ctx.log("MC_Consistency: %d states" % mc["distinct"])
     trace = ctx.path("trace.ndjson")
-    out = vlib.run_harness(ctx, [binary, "record-consistency", "--layouts", LAYOUTS[ctx.tier], "--out", trace], timeout=3000)
+    out = vlib.run_harness(ctx, [binary, "record-consistency", "--layouts", LAYOUTS[ctx.tier], "--out", trace,
+                                 "--slow-ms", "2600" if ctx.tier == "quick" else "6500", "--slow-every", "3" if ctx.tier == "quick" else "1"],
+                           timeout=3000)
     st = json.loads(out.strip().splitlines()[-1])
     if st["calls"] < 100:
         raise vlib.ToolError("vacuous recording: %s" % st)
@@ -43,6 +47,9 @@ def run(ctx):
                     samples.append(e)
     if results.get("ok", 0) == 0 or results.get("failure", 0) == 0:
         raise vlib.ToolError("vacuous: outcomes %s" % results)
+    slow_calls = sum(1 for line in open(trace) if '"slow":[[' in line)
+    if slow_calls == 0:
+        raise vlib.ToolError("vacuous: no call with a slow replica was recorded")
     ctx.log("%d calls on %d real clusters (%s), %d later-replication checks: %d rejected" % (
         st["calls"], st["layouts"], results, st["later_checks"], len(tv["fails"])))
     for e in tv["fails"][:4]:
@@ -50,7 +57,7 @@ def run(ctx):
                                "why": ["the call's outcome and the replicas' storage right after it do not satisfy the level's promise"]})
     cov = {"states": mc["distinct"], "transitions": mc["generated"], "traces_validated_against_impl": st["calls"],
            "samples": samples[:5], "calls": st["calls"], "clusters": st["layouts"], "outcomes": results,
-           "later_checks": st["later_checks"], "events_rejected": len(tv["fails"])}
+           "calls_with_a_slow_replica": slow_calls, "later_checks": st["later_checks"], "events_rejected": len(tv["fails"])}
     return vlib.finish(ctx, "model_checking", cov, ASSUMPTIONS)
 
 
